@@ -3,7 +3,9 @@
 /repo itself); writes seeded/_incoming/<P>/eval.json: exit code, VIOLATION / INFRA lines."""
 import json, os, re, subprocess, sys, shutil, time
 VERIF = os.path.dirname(os.path.dirname(os.path.abspath(__file__)))
-D = '/tmp/mrepo_alt'
+import hashlib
+# one scratch copy per checkout of /verif (a `vp run` snapshot evaluates concurrently with the working copy)
+D = '/tmp/mrepo_alt' + ('' if VERIF == '/verif' else '_' + hashlib.sha1(VERIF.encode()).hexdigest()[:6])
 
 def main():
     only = sys.argv[1:]
